@@ -334,7 +334,10 @@ where
             assert_eq!(chain.pop(), Some(key));
         });
         
+        // set when the closure runs, i.e. when `res` was computed by this call (for `T`)
+        let computed = std::cell::Cell::new(false);
         let res = self.storage.cache.get_or_compute(key, || {
+            computed.set(true);
             match self.resolve(key).and_then(|p| T::from_primitive(p, self)) {
                 Ok(obj) => Ok(AnySync::new(Shared::new(obj))),
                 Err(e) => {
@@ -354,7 +357,13 @@ where
                     }
                 }
             }
-            Err(e) => Err(PdfError::Shared { source: e.clone()}),
+            Err(e) if computed.get() => Err(PdfError::Shared { source: e.clone()}),
+            Err(_) => {
+                // The cached error does not say which type failed to load: it may stem from
+                // an earlier `get` of this object as a different type. Load it as `T`.
+                let p = self.resolve(key)?;
+                Ok(RcRef::new(key, T::from_primitive(p, self)?.into()))
+            }
         }
     }
     fn options(&self) -> &ParseOptions {
